@@ -8,7 +8,10 @@
    obj_ok h o = o's block is live in heap h and at least o's size long; HeapInv = the C14 invariant;
    world/wstep/wrun = an interleaving semantics of threads running `with v.get_lock(): v.value += 1`;
    Model/SharedShadow.v = the heap-free specification of create/drop/store/rebuild histories (shadow map);
-   Model/SharedHop.v / SharedHopDrop.v = processes with their own registries and heaps, hand-overs, drops. *)
+   Model/SharedHop.v / SharedHopDrop.v = processes with their own registries and heaps, hand-overs, drops;
+   Model/SharedFork.v = the locked increment over the real lock (one shared kernel semaphore + a per-process copy of the
+   lock object, C17's primitive) with FORK as an operation; Gen/G_semfork.v = where SemLock.__init__ registers the
+   after-fork reset of a lock object, read from the code on this run. *)
 From Coq Require Import ZArith List Bool.
 From BV Require Import Lib.PyVal Model.Heap Model.SharedMem Model.SharedHop Model.SharedShadow Model.SharedHopDrop
   Gen.G_sharedmem.
